@@ -58,6 +58,7 @@ type Clause struct {
 }
 
 type LoopContract struct {
+	NoAutoFrame bool
 	Invs      []Clause
 	Decreases Expr
 	DecSrc    string
@@ -649,6 +650,10 @@ func readContractFile(path, pkg string) (*ContractFile, error) {
 						return nil, fail(err)
 					}
 					lc.Decreases, lc.DecSrc = e, fs[2]
+				case "opt":
+					if strings.TrimSpace(fs[2]) == "noautoframe" {
+						lc.NoAutoFrame = true
+					}
 				default:
 					return nil, fail(fmt.Errorf("loop <n> invariant|decreases"))
 				}
